@@ -47,7 +47,13 @@ type Script struct {
 	// Method of the request ("" = POST): whether a request has a body is a matter of its length and its stream, not
 	// of its method (a GET may carry one).
 	Method string `json:"method,omitempty"`
+	// Lead: bytes that mean something to some reader, laid over the pattern at offsets 0 and 4 (as far as the body
+	// reaches): "bom" EF BB BF, "bom16" FF FE, "crlf" CR LF, "lf", "blank", "nul", "gzip" 1F 8B. To the probe they are
+	// bytes like any other. (r7)
+	Lead string `json:"lead,omitempty"`
 }
+
+var leads = map[string][]byte{"bom": {0xEF, 0xBB, 0xBF}, "bom16": {0xFF, 0xFE}, "crlf": {'\r', '\n'}, "lf": {'\n'}, "blank": {' '}, "nul": {0}, "gzip": {0x1F, 0x8B}}
 
 // Op is one operation on the request: K is "has" (runtime.HasBody), "read" (Body.Read with a buffer of N
 // bytes) or "close" (Body.Close).
@@ -70,6 +76,12 @@ func (s Script) bytes() []byte {
 	for i := range b {
 		x := uint32(i+1)*2654435761 + uint32(s.Salt)*40503
 		b[i] = byte(x>>24) ^ byte(x>>11) ^ byte(i)
+	}
+	if m := leads[s.Lead]; len(m) > 0 {
+		copy(b, m)
+		if len(b) > 4 {
+			copy(b[4:], m)
+		}
 	}
 	return b
 }
@@ -454,6 +466,7 @@ func genScript(t *rapid.T) Script {
 	s.Body = rapid.SampledFrom([]string{"script", "script", "script", "script", "script", "script", "script", "nil", "nobody"}).Draw(t, "body")
 	s.CL = rapid.SampledFrom([]string{"absent", "absent", "absent", "absent0", "absent0", "zero", "pos", "posfield"}).Draw(t, "cl")
 	s.Method = rapid.SampledFrom([]string{"", "", "", "GET", "get", "HEAD", "DELETE", "OPTIONS", "PUT"}).Draw(t, "method")
+	s.Lead = rapid.SampledFrom([]string{"", "", "", "bom", "bom", "bom16", "crlf", "lf", "blank", "nul", "gzip"}).Draw(t, "lead")
 	if s.Body == "script" {
 		if rapid.IntRange(0, 3).Draw(t, "anylen") == 0 {
 			s.Len = rapid.IntRange(0, 3*4096).Draw(t, "len")
@@ -599,6 +612,9 @@ func Classify(c Case) (bool, []string) {
 	labels := []string{"body=" + s.Body, "cl=" + s.CL}
 	if s.Body == "script" {
 		labels = append(labels, "term="+s.Term)
+		if s.Lead != "" && s.Len >= len(leads[s.Lead]) {
+			labels = append(labels, "body starts with "+s.Lead)
+		}
 		switch {
 		case s.Len == 0:
 			labels = append(labels, "len=0")
